@@ -440,7 +440,8 @@ class SymInterp(PathInterp):
             return st.set(target.id, value_text)
         if isinstance(target, ast.Attribute) and isinstance(target.value, ast.Name) and target.value.id != "self":
             k = f"{target.value.id}.{target.attr}"
-            return st.set(k, value_text).event("store", k, value_text)
+            shown = f"{st.get(target.value.id, target.value.id)}.{target.attr}"
+            return st.set(k, value_text).event("store", shown, value_text)
         if isinstance(target, ast.Attribute) and isinstance(target.value, ast.Name) and target.value.id == "self":
             k = f"self.{target.attr}"
             return st.set(k, value_text).event("set", k, value_text)
@@ -517,6 +518,9 @@ class SymInterp(PathInterp):
         while isinstance(t, ast.UnaryOp) and isinstance(t.op, ast.Not):
             pol, t = not pol, t.operand
         txt = self.text(t, st)
+        if txt in ("None is None", "None is not None"):
+            val = (txt == "None is None") == pol
+            return ([st], []) if val else ([], [st])
         if isinstance(t, ast.Call) and ast.unparse(t.func) == "isinstance" and len(t.args) == 2 and not t.keywords:
             cl = _class_list(t.args[1])
             if cl:
